@@ -1,7 +1,9 @@
 (* Proofs about Model/RichError.v (C20). *)
-From Verif Require Import Lib.Bytes Lib.Obs Lib.Utf8 Lib.HeaderMap.
+From Verif Require Import Lib.Bytes Lib.Obs Lib.Base64 Lib.Percent Lib.Utf8 Lib.HeaderMap.
 From Verif Require Import Gen.StatusTables Gen.RichErrorTables Model.Status Model.ProtoWire Model.RichError.
 From Verif Require Import Proofs.Status Proofs.ProtoWire.
+From Coq Require Import String.
+Close Scope string_scope.
 Open Scope N_scope.
 
 (* ============================================================================================ *)
@@ -116,6 +118,33 @@ Section LayerA.
     destruct (into_any_ok d H) as (a & Ea & Ca). exists (a :: conv). cbn [map_res]. rewrite Ea, E.
     split; [reflexivity|now constructor].
   Qed.
+
+  (* the ten pushes of with_error_details_and_metadata convert the details of the set, in the order
+     of [pushed] - with the same result, panics included, as converting that list *)
+  Lemma map_res_app {A B} (g : A -> res B) l1 l2 :
+    map_res g (l1 ++ l2) = bind (map_res g l1) (fun x => bind (map_res g l2) (fun y => Ok (x ++ y))).
+  Proof.
+    induction l1 as [|a l1 IH]; cbn [app map_res bind].
+    - destruct (map_res g l2); reflexivity.
+    - destruct (g a); cbn [bind]; try reflexivity. rewrite IH.
+      destruct (map_res g l1); cbn [bind]; try reflexivity. destruct (map_res g l2); reflexivity.
+  Qed.
+  Lemma push_opt_spec {A} (f : A -> error_detail) o l :
+    push_opt enc_detail f o (map_res into_any l) = map_res into_any (l ++ opt_list f o).
+  Proof.
+    rewrite map_res_app. unfold push_opt. destruct (map_res into_any l) as [x| | |]; cbn [bind]; try reflexivity.
+    destruct o as [v|]; cbn [opt_list map_res bind]; [|now rewrite app_nil_r].
+    destruct (into_any (f v)); reflexivity.
+  Qed.
+  Lemma conv_details_spec ed : conv_details enc_detail ed = map_res into_any (pushed ed).
+  Proof.
+    unfold conv_details, pushed. change (Ok []) with (map_res into_any []).
+    rewrite !push_opt_spec. cbn [app]. now rewrite <- !app_assoc.
+  Qed.
+  Theorem with_error_details_is_vec_A code message ed md :
+    with_error_details_and_metadata enc_detail enc_status code message ed md =
+    with_error_details_vec_and_metadata enc_detail enc_status code message (pushed ed) md.
+  Proof. unfold with_error_details_and_metadata, with_error_details_vec_and_metadata. now rewrite conv_details_spec. Qed.
 
   Lemma converted_any_ok ds conv : Forall2 converted ds conv -> Forall any_ok conv.
   Proof.
@@ -254,48 +283,47 @@ Section LayerA.
 End LayerA.
 
 (* ============================================================================================ *)
-(* Layer B: the codecs written with the wire model satisfy the hypotheses of layer A *)
+(* Layer B: the codecs - the generic table-driven codec of Model/ProtoWire.v at the regenerated
+   tables - satisfy the hypotheses of layer A *)
 
-Ltac tag_eval :=
-  repeat match goal with
-  | |- context [N.eqb ?a ?b] =>
-      let v := eval vm_compute in (N.eqb a b) in
-      match v with true => idtac | false => idtac end;
-      change (N.eqb a b) with v
-  end.
-Ltac closed_range := split; vm_compute; discriminate.
+(* ---------- the regenerated tables are well formed ---------- *)
+(* distinct tags in the legal range, nested message types known and made of scalars: what
+   prost-derive checks at compile time, and what [dec_enc_g] asks of a table *)
+Definition all_tables : list (list (String.string * N * pkind)) :=
+  [fields_Status; fields_RetryInfo; fields_DebugInfo; fields_QuotaFailure; fields_ErrorInfo;
+   fields_PreconditionFailure; fields_BadRequest; fields_RequestInfo; fields_ResourceInfo; fields_Help;
+   fields_LocalizedMessage].
+Lemma tables_ok : forallb (fun t => schema_okb (schema_of t) && nested_ok t) all_tables = true.
+Proof. vm_compute. reflexivity. Qed.
+(* the schemas of the model are the regenerated tables, in tag order *)
+Lemma schemas_are_the_tables :
+  S_Status = schema_of fields_Status /\ (forall k, S_of k = schema_of
+    match k with
+    | KRetryInfo => fields_RetryInfo | KDebugInfo => fields_DebugInfo | KQuotaFailure => fields_QuotaFailure
+    | KErrorInfo => fields_ErrorInfo | KPreconditionFailure => fields_PreconditionFailure | KBadRequest => fields_BadRequest
+    | KRequestInfo => fields_RequestInfo | KResourceInfo => fields_ResourceInfo | KHelp => fields_Help
+    | KLocalizedMessage => fields_LocalizedMessage
+    end).
+Proof. split; [vm_compute; reflexivity|]. intros []; vm_compute; reflexivity. Qed.
 
-Lemma fold_res_inv {S T} (P : S -> Prop) (f : S -> T -> res S) l :
-  (forall s x s', P s -> f s x = Ok s' -> P s') -> forall s s', P s -> fold_res f l s = Ok s' -> P s'.
-Proof.
-  intros H. induction l as [|x l IH]; intros s s' Hs; cbn; [intros [= <-]; exact Hs|].
-  destruct (f s x) as [s1| | |] eqn:E; try discriminate. apply IH. eapply H; eauto.
-Qed.
+Lemma S_Status_ok : schema_ok S_Status.
+Proof. apply schema_okb_spec. vm_compute. reflexivity. Qed.
+Lemma S_of_ok k : schema_ok (S_of k).
+Proof. apply schema_okb_spec. destruct k; vm_compute; reflexivity. Qed.
 
-(* ---------- integers ---------- *)
-Lemma to_i64_of_int z : (0 <= z < 9223372036854775808)%Z -> to_i64 (of_int z) = z.
+Ltac unfold_tables_in H :=
+  cbv delta [S_Status S_RetryInfo S_DebugInfo S_QuotaFailure S_ErrorInfo S_PreconditionFailure S_BadRequest
+             S_RequestInfo S_ResourceInfo S_Help S_LocalizedMessage F_Any F_Duration F_QuotaViolation
+             F_PreconditionViolation F_FieldViolation F_HelpLink S_of] in H.
+(* [He : In e <a table>]: one goal per field of the table, whatever their number and order *)
+Ltac each_field He := unfold_tables_in He; repeat (destruct He as [<-|He]); try contradiction.
+Ltac field_cbn := cbn [fname fknd ftag fst snd lookup map String.eqb Ascii.eqb Bool.eqb dflt_f dflt_s vstr row].
+
+Lemma Forall_arrange {K A} (P : A -> Prop) (s : list (String.string * N * K)) dflt named :
+  (forall e, In e s -> P (lookup (fname e) named (dflt (fknd e)))) -> Forall P (arrange s dflt named).
 Proof.
-  intros H. unfold to_i64, of_int, U64, U63.
-  replace (Z.to_N (z mod Z.of_N 18446744073709551616) mod 18446744073709551616) with (Z.to_N z) by lia.
-  replace (Z.to_N z <? 9223372036854775808) with true by lia. lia.
+  unfold arrange. intros H. apply Forall_forall. intros x Hx. apply in_map_iff in Hx as (e & <- & He). now apply H.
 Qed.
-Lemma to_i32_of_int z : (0 <= z < 2147483648)%Z -> to_i32 (of_int z) = z.
-Proof.
-  intros H. unfold to_i32, of_int, U64, U32, U31.
-  replace (Z.to_N (z mod Z.of_N 18446744073709551616) mod 4294967296) with (Z.to_N z) by lia.
-  replace (Z.to_N z <? 2147483648) with true by lia. lia.
-Qed.
-Lemma to_i64_range n : (I64_MIN <= to_i64 n <= I64_MAX)%Z.
-Proof.
-  unfold to_i64, U64, U63, I64_MIN, I64_MAX.
-  destruct (n mod 18446744073709551616 <? 9223372036854775808) eqn:E; lia.
-Qed.
-Lemma to_i32_range n : (-2147483648 <= to_i32 n <= 2147483647)%Z.
-Proof.
-  unfold to_i32, U32, U31. destruct (n mod 4294967296 <? 2147483648) eqn:E; lia.
-Qed.
-Lemma of_int_lt z : of_int z < U64.
-Proof. unfold of_int, U64. lia. Qed.
 
 (* ---------- prost_types::Duration ---------- *)
 Definition pbdur_in_range (p : pb_duration) : Prop :=
@@ -373,477 +401,309 @@ Proof.
   unfold duration_new. rewrite !N2Z.id. replace (d_nanos d <? 1000000000) with true by lia. now destruct d.
 Qed.
 
-Lemma merge_duration_good p f : good (merge_duration p f).
+(* the Duration a decode returns holds an i64 and an i32 (typing invariant of the merges) *)
+Lemma dur_of_g_in_range x : flat_typed F_Duration x -> pbdur_in_range (dur_of_g x).
 Proof.
-  destruct f as [t v]. unfold merge_duration.
-  destruct (t =? tag_Duration_seconds); [destruct v; exact I|].
-  destruct (t =? tag_Duration_nanos); [destruct v; exact I|exact I].
+  intros H. unfold flat_typed in H. unfold_tables_in H.
+  repeat match goal with H : Forall2 _ _ _ |- _ => inversion H; subst; clear H end.
+  unfold pbdur_in_range, dur_of_g, I64_MIN, I64_MAX.
+  repeat match goal with v : sval |- _ => destruct v end; cbn in *; try contradiction; lia.
 Qed.
-Lemma merge_duration_range p f q : pbdur_in_range p -> merge_duration p f = Ok q -> pbdur_in_range q.
-Proof.
-  destruct f as [t v]. unfold merge_duration, pbdur_in_range. intros [Hs Hn].
-  destruct (t =? tag_Duration_seconds).
-  { destruct v; try discriminate. intros [= <-]. cbn. split; [apply to_i64_range|exact Hn]. }
-  destruct (t =? tag_Duration_nanos).
-  { destruct v; try discriminate. intros [= <-]. cbn. split; [exact Hs|apply to_i32_range]. }
-  intros [= <-]. now split.
-Qed.
+Lemma dur_of_g_of_dur p : dur_of_g (g_of_dur p) = p.
+Proof. now destruct p. Qed.
 
-Lemma dec_enc_duration s n : (0 <= s < 9223372036854775808)%Z -> (0 <= n < 1000000000)%Z ->
-  fold_res merge_duration (enc_duration (mkPbDur s n)) (mkPbDur 0 0) = Ok (mkPbDur s n).
-Proof.
-  intros Hs Hn. unfold enc_duration, enc_int. cbn [pd_seconds pd_nanos].
-  destruct (s =? 0)%Z eqn:Es; destruct (n =? 0)%Z eqn:En; cbn [app fold_res merge_duration as_varint bind pd_seconds pd_nanos];
-    tag_eval; cbn [bind pd_seconds pd_nanos];
-    rewrite ?to_i64_of_int, ?to_i32_of_int by lia; f_equal; f_equal; lia.
-Qed.
-
-Lemma enc_duration_shape p : Forall (shape_ok []) (enc_duration p).
-Proof.
-  unfold enc_duration, enc_int. apply Forall_app. split.
-  - destruct (pd_seconds p =? 0)%Z; constructor; [|constructor]. split; [closed_range|]. split; [apply of_int_lt|reflexivity].
-  - destruct (pd_nanos p =? 0)%Z; constructor; [|constructor]. split; [closed_range|]. split; [apply of_int_lt|reflexivity].
-Qed.
-
-(* ---------- RetryInfo ---------- *)
-Lemma merge_pb_retry_info_good st f : good (merge_pb_retry_info st f).
-Proof.
-  destruct f as [t v]. unfold merge_pb_retry_info. destruct (t =? tag_RetryInfo_retry_delay); [|exact I].
-  apply good_bind; [apply as_message_good|]. intros fs _.
-  apply good_bind; [apply fold_res_good; intros; apply merge_duration_good|]. intros; exact I.
-Qed.
-Definition opt_in_range (o : option pb_duration) : Prop := match o with Some p => pbdur_in_range p | None => True end.
-Lemma zero_in_range : pbdur_in_range (mkPbDur 0 0).
-Proof. unfold pbdur_in_range, I64_MIN, I64_MAX. cbn. lia. Qed.
-Lemma merge_pb_retry_info_range st f st' : opt_in_range st -> merge_pb_retry_info st f = Ok st' -> opt_in_range st'.
-Proof.
-  destruct f as [t v]. unfold merge_pb_retry_info. intros H.
-  destruct (t =? tag_RetryInfo_retry_delay); [|now intros [= <-]].
-  destruct (as_message RECURSION_LIMIT v) as [fs| | |]; try discriminate. cbn [bind].
-  set (p0 := match st with Some p => p | None => mkPbDur 0 0 end).
-  destruct (fold_res merge_duration fs p0) as [p| | |] eqn:E; try discriminate. cbn [bind]. intros [= <-]. cbn.
-  refine (fold_res_inv pbdur_in_range merge_duration fs _ p0 p _ E).
-  - intros s x s' Hs Hm. eapply merge_duration_range; eauto.
-  - unfold p0. destruct st; [exact H|exact zero_in_range].
-Qed.
-Lemma dec_retry_info_good fs : good (dec_retry_info fs).
-Proof.
-  unfold dec_retry_info.
-  pose proof (fold_res_good merge_pb_retry_info fs merge_pb_retry_info_good None) as G.
-  destruct (fold_res merge_pb_retry_info fs None) as [o| | |] eqn:E; cbn in G; try contradiction; cbn [bind]; [|exact I].
-  destruct o as [p|]; [|exact I].
-  assert (R : opt_in_range (Some p)).
-  { refine (fold_res_inv opt_in_range merge_pb_retry_info fs _ None (Some p) I E).
-    intros s x s' Hs Hm. eapply merge_pb_retry_info_range; eauto. }
-  apply good_bind; [now apply std_of_pb_good|intros; exact I].
-Qed.
-
+(* ---------- the ten payloads ---------- *)
+Definition str_ok (s : str) : Prop := utf8_valid s = true /\ bytes_ok s = true.
 Definition retry_info_ok (x : retry_info) : Prop :=
   match ri_retry_delay x with Some d => dur_ok d | None => True end.
-
-Lemma retry_info_rt x : retry_info_ok x ->
-  exists fs, enc_retry_info x = Ok fs /\ Forall (shape_ok []) fs /\ bytes_ok (ser fs) = true /\
-             (nlen (ser fs) < U64 -> dec_retry_info fs = Ok x).
-Proof.
-  destruct x as [[d|]]; unfold retry_info_ok; cbn [ri_retry_delay]; intros H.
-  - unfold enc_retry_info. cbn [ri_retry_delay]. rewrite pb_retry_delay_ok by exact H. cbn [bind].
-    set (p := mkPbDur (Z.of_N (d_secs d)) (Z.of_N (d_nanos d))).
-    eexists. split; [reflexivity|]. split; [|split].
-    + constructor; [|constructor]. split; [closed_range|exact I].
-    + apply ser_bytes. constructor; [|constructor]. cbn. apply ser_bytes.
-      unfold enc_duration, enc_int. apply Forall_app. split.
-      * destruct (pd_seconds p =? 0)%Z; constructor; [exact I|constructor].
-      * destruct (pd_nanos p =? 0)%Z; constructor; [exact I|constructor].
-    + intros Hsz. unfold dec_retry_info. cbn [fold_res merge_pb_retry_info enc_msg].
-      tag_eval. cbn [as_message RECURSION_LIMIT].
-      rewrite parse_ser; [|apply enc_duration_shape|].
-      2:{ enough (nlen (ser (enc_duration p)) <= nlen (ser [enc_msg tag_RetryInfo_retry_delay (enc_duration p)])) by lia.
-          apply (ser_payload_small tag_RetryInfo_retry_delay). now left. }
-      cbn [bind]. unfold p. destruct H as [Hs Hn].
-      rewrite dec_enc_duration by (unfold U63 in Hs; lia). cbn [bind].
-      rewrite std_of_pb_of_std by (split; assumption). reflexivity.
-  - exists []. split; [reflexivity|]. split; [constructor|]. split; [reflexivity|]. intros _. reflexivity.
-Qed.
-
-(* ---------- strings ---------- *)
-Definition str_ok (s : str) : Prop := utf8_valid s = true /\ bytes_ok s = true.
-
-Lemma enc_str_shape t s : 1 <= t <= MAX_TAG -> Forall (shape_ok []) (enc_str t s).
-Proof. intros H. destruct s; constructor; [|constructor]. split; [exact H|exact I]. Qed.
-Definition payload_bytes_ok (f : field) : Prop :=
-  match snd f with WVar _ | WGrp => True | W64 b | WLen b | W32 b => bytes_ok b = true end.
-Lemma enc_str_bytes t s : bytes_ok s = true -> Forall payload_bytes_ok (enc_str t s).
-Proof. intros H. destruct s; constructor; [exact H|constructor]. Qed.
-
-(* ---------- DebugInfo ---------- *)
-Lemma merge_debug_info_good st f : good (merge_debug_info st f).
-Proof.
-  destruct f as [t v]. unfold merge_debug_info.
-  destruct (t =? tag_DebugInfo_stack_entries); [apply good_bind; [apply as_string_good|intros; exact I]|].
-  destruct (t =? tag_DebugInfo_detail); [apply good_bind; [apply as_string_good|intros; exact I]|exact I].
-Qed.
-Definition debug_info_ok (x : debug_info) : Prop := Forall str_ok (di_stack_entries x) /\ str_ok (di_detail x).
-
-Lemma debug_info_rt x : debug_info_ok x -> dec_debug_info (enc_debug_info x) = Ok x.
-Proof.
-  destruct x as [stack detail]. unfold debug_info_ok. cbn [di_stack_entries di_detail]. intros [Hst [Hu _]].
-  unfold dec_debug_info, enc_debug_info. cbn [di_stack_entries di_detail]. rewrite fold_res_app.
-  assert (G : forall acc d0, fold_res merge_debug_info (enc_rep_str tag_DebugInfo_stack_entries stack) (mkDebugInfo acc d0)
-                             = Ok (mkDebugInfo (acc ++ stack) d0)).
-  { induction Hst as [|s stack [Hs _] _ IH]; intros acc d0; [cbn; now rewrite app_nil_r|].
-    cbn [enc_rep_str map fold_res merge_debug_info]. tag_eval. cbn [as_string]. rewrite Hs. cbn [bind di_stack_entries di_detail].
-    fold (enc_rep_str tag_DebugInfo_stack_entries stack). rewrite IH. now rewrite <- app_assoc. }
-  rewrite G. cbn [bind app]. destruct detail as [|c detail]; [reflexivity|].
-  cbn [enc_str fold_res merge_debug_info]. tag_eval. cbn [as_string]. rewrite Hu. reflexivity.
-Qed.
-Lemma enc_debug_info_shape x : Forall (shape_ok []) (enc_debug_info x).
-Proof.
-  unfold enc_debug_info. apply Forall_app. split; [|apply enc_str_shape; closed_range].
-  unfold enc_rep_str. apply Forall_forall. intros f Hin. apply in_map_iff in Hin as (s & <- & _). split; [closed_range|exact I].
-Qed.
-Lemma enc_debug_info_bytes x : debug_info_ok x -> Forall payload_bytes_ok (enc_debug_info x).
-Proof.
-  intros [Hst [_ Hb]]. unfold enc_debug_info. apply Forall_app. split; [|now apply enc_str_bytes].
-  unfold enc_rep_str. apply Forall_forall. intros f Hin. apply in_map_iff in Hin as (s & <- & Hs).
-  rewrite Forall_forall in Hst. now destruct (Hst s Hs).
-Qed.
-
-(* ---------- the tag lists ---------- *)
-Ltac tags_ok_tac :=
-  split; [repeat (constructor; [cbn; intuition discriminate|]); constructor
-         |repeat (constructor; [closed_range|]); constructor].
-Lemma QV_TAGS_ok : tags_ok QV_TAGS. Proof. tags_ok_tac. Qed.
-Lemma PV_TAGS_ok : tags_ok PV_TAGS. Proof. tags_ok_tac. Qed.
-Lemma FV_TAGS_ok : tags_ok FV_TAGS. Proof. tags_ok_tac. Qed.
-Lemma HL_TAGS_ok : tags_ok HL_TAGS. Proof. tags_ok_tac. Qed.
-Lemma RQ_TAGS_ok : tags_ok RQ_TAGS. Proof. tags_ok_tac. Qed.
-Lemma RS_TAGS_ok : tags_ok RS_TAGS. Proof. tags_ok_tac. Qed.
-Lemma LM_TAGS_ok : tags_ok LM_TAGS. Proof. tags_ok_tac. Qed.
-Lemma ENTRY_TAGS_ok : tags_ok ENTRY_TAGS. Proof. tags_ok_tac. Qed.
-
-Definition strs_all_ok (l : list str) : Prop := Forall str_ok l.
-Lemma strs_all_ok_strs tags l : length l = length tags -> strs_all_ok l -> strs_ok tags l.
-Proof. intros Hl H. split; [exact Hl|]. eapply Forall_impl; [|exact H]. now intros s [? _]. Qed.
-Lemma strs_all_ok_bytes l : strs_all_ok l -> Forall (fun v => bytes_ok v = true) l.
-Proof. intros H. eapply Forall_impl; [|exact H]. now intros s [_ ?]. Qed.
-
-(* ---------- one string tuple (RequestInfo, ResourceInfo, LocalizedMessage) ---------- *)
-Lemma strs_payload_rt tags vals : tags_ok tags -> length vals = length tags -> strs_all_ok vals ->
-  Forall (shape_ok []) (enc_strs tags vals) /\ bytes_ok (ser (enc_strs tags vals)) = true /\
-  (nlen (ser (enc_strs tags vals)) < U64 ->
-   bind (parse RECURSION_LIMIT [] (ser (enc_strs tags vals))) (dec_strs tags) = Ok vals).
-Proof.
-  intros [Hnd Hr] Hl Hv. split; [now apply enc_strs_shape|]. split.
-  - apply ser_bytes, enc_strs_bytes, strs_all_ok_bytes, Hv.
-  - intros Hsz. rewrite parse_ser by (try apply enc_strs_shape; assumption). cbn [bind].
-    apply dec_strs_enc; [exact Hnd|now apply strs_all_ok_strs].
-Qed.
-
-(* ---------- a repeated string tuple (QuotaFailure, PreconditionFailure, BadRequest, Help) ---------- *)
-Lemma rep_payload_rt {V} tag inner (to : V -> list str) (of : list str -> V) (vs : list V) :
-  1 <= tag <= MAX_TAG -> tags_ok inner -> (forall v, of (to v) = v) ->
-  Forall (fun v => length (to v) = length inner /\ strs_all_ok (to v)) vs ->
-  let fs := enc_rep_strs tag inner (map to vs) in
-  Forall (shape_ok []) fs /\ bytes_ok (ser fs) = true /\
-  (nlen (ser fs) < U64 ->
-   bind (parse RECURSION_LIMIT [] (ser fs)) (fun fs' => bind (dec_rep_strs tag inner fs') (fun l => Ok (map of l))) = Ok vs).
-Proof.
-  intros Ht Hin Hof Hvs fs. split; [now apply enc_rep_strs_shape|]. split.
-  - apply ser_bytes, enc_rep_strs_bytes. apply Forall_forall. intros it Hit. apply in_map_iff in Hit as (v & <- & Hv).
-    rewrite Forall_forall in Hvs. apply strs_all_ok_bytes. now destruct (Hvs v Hv).
-  - intros Hsz. rewrite parse_ser by (try apply enc_rep_strs_shape; assumption). cbn [bind].
-    unfold fs. rewrite dec_rep_strs_enc; [| exact Hin | | exact Hsz].
-    + cbn [bind]. rewrite map_map. f_equal. rewrite <- (map_id vs) at 2. apply map_ext. exact Hof.
-    + apply Forall_forall. intros it Hit. apply in_map_iff in Hit as (v & <- & Hv).
-      rewrite Forall_forall in Hvs. destruct (Hvs v Hv). now apply strs_all_ok_strs.
-Qed.
-
-(* ---------- ErrorInfo ---------- *)
-Lemma merge_error_info_good st f : good (merge_error_info st f).
-Proof.
-  destruct f as [t v]. unfold merge_error_info.
-  destruct (t =? tag_ErrorInfo_reason); [apply good_bind; [apply as_string_good|intros; exact I]|].
-  destruct (t =? tag_ErrorInfo_domain); [apply good_bind; [apply as_string_good|intros; exact I]|].
-  destruct (t =? tag_ErrorInfo_metadata); [|exact I].
-  apply good_bind; [apply as_message_good|]. intros fs _. apply good_bind; [apply dec_strs_good|intros; exact I].
-Qed.
-
 Definition error_info_ok (x : error_info) : Prop :=
   str_ok (ei_reason x) /\ str_ok (ei_domain x) /\ NoDup (map fst (ei_metadata x)) /\
   Forall (fun kv => str_ok (fst kv) /\ str_ok (snd kv)) (ei_metadata x).
-
-Lemma map_insert_fresh m k v : ~ In k (map fst m) -> map_insert m k v = m ++ [(k, v)].
-Proof.
-  induction m as [|[k' v'] m IH]; intros H; [reflexivity|]. cbn [map_insert].
-  destruct (bytes_eqb k' k) eqn:E.
-  - apply bytes_eqb_eq in E. subst. exfalso. apply H. now left.
-  - cbn [app]. f_equal. apply IH. intros Hin. apply H. now right.
-Qed.
-
-Definition enc_entries (md : list (str * str)) : list field :=
-  map (fun kv => enc_msg tag_ErrorInfo_metadata (enc_strs ENTRY_TAGS [fst kv; snd kv])) md.
-
-Lemma error_info_entries_rt md : forall r d acc,
-  NoDup (map fst (acc ++ md)) -> Forall (fun kv => str_ok (fst kv) /\ str_ok (snd kv)) md ->
-  (forall kv, In kv md -> nlen (ser (enc_strs ENTRY_TAGS [fst kv; snd kv])) < U64) ->
-  fold_res merge_error_info (enc_entries md) (mkErrorInfo r d acc) = Ok (mkErrorInfo r d (acc ++ md)).
-Proof.
-  induction md as [|[k v] md IH]; intros r d acc Hnd Hok Hsz; [cbn; now rewrite app_nil_r|].
-  inversion Hok as [|? ? [[Hku _] [Hvu _]] Hok']; subst. cbn [fst snd] in *.
-  cbn [enc_entries map fold_res merge_error_info enc_msg fst snd]. tag_eval. cbn [as_message RECURSION_LIMIT].
-  rewrite parse_ser; [|apply enc_strs_shape, ENTRY_TAGS_ok|apply (Hsz (k, v)); now left].
-  cbn [bind]. rewrite dec_strs_enc; [|apply ENTRY_TAGS_ok|split; [reflexivity|repeat constructor; assumption]].
-  cbn [bind ei_reason ei_domain ei_metadata s0 s1 nth].
-  rewrite map_insert_fresh.
-  2:{ rewrite map_app in Hnd. cbn [map fst] in Hnd. intros Hin. apply NoDup_remove_2 in Hnd. apply Hnd.
-      apply in_or_app. now left. }
-  fold (enc_entries md). rewrite IH.
-  - now rewrite <- app_assoc.
-  - now rewrite <- app_assoc.
-  - exact Hok'.
-  - intros kv Hin. apply Hsz. now right.
-Qed.
-
-Lemma error_info_rt x : error_info_ok x ->
-  Forall (shape_ok [tag_ErrorInfo_metadata]) (enc_error_info x) /\ bytes_ok (ser (enc_error_info x)) = true /\
-  (nlen (ser (enc_error_info x)) < U64 -> dec_error_info (enc_error_info x) = Ok x).
-Proof.
-  destruct x as [r d md]. unfold error_info_ok. cbn [ei_reason ei_domain ei_metadata].
-  intros ([Hru Hrb] & [Hdu Hdb] & Hnd & Hmd).
-  unfold enc_error_info. cbn [ei_reason ei_domain ei_metadata]. fold (enc_entries md).
-  split; [|split].
-  - apply Forall_app. split; [destruct r; constructor; [|constructor]; split; [closed_range|exact I]|].
-    apply Forall_app. split; [destruct d; constructor; [|constructor]; split; [closed_range|exact I]|].
-    unfold enc_entries. apply Forall_forall. intros f Hin. apply in_map_iff in Hin as (kv & <- & _). split; [closed_range|exact I].
-  - apply ser_bytes. apply Forall_app. split; [now apply enc_str_bytes|].
-    apply Forall_app. split; [now apply enc_str_bytes|].
-    unfold enc_entries. apply Forall_forall. intros f Hin. apply in_map_iff in Hin as (kv & <- & Hkv).
-    cbn [snd enc_msg]. apply ser_bytes, enc_strs_bytes. rewrite Forall_forall in Hmd. destruct (Hmd kv Hkv) as [[_ ?] [_ ?]].
-    repeat constructor; assumption.
-  - intros Hsz. unfold dec_error_info. rewrite fold_res_app.
-    assert (E1 : fold_res merge_error_info (enc_str tag_ErrorInfo_reason r) (mkErrorInfo [] [] []) = Ok (mkErrorInfo r [] [])).
-    { destruct r; [reflexivity|]. cbn [enc_str fold_res merge_error_info]. tag_eval. cbn [as_string]. now rewrite Hru. }
-    rewrite E1. cbn [bind]. rewrite fold_res_app.
-    assert (E2 : fold_res merge_error_info (enc_str tag_ErrorInfo_domain d) (mkErrorInfo r [] []) = Ok (mkErrorInfo r d [])).
-    { destruct d; [reflexivity|]. cbn [enc_str fold_res merge_error_info]. tag_eval. cbn [as_string]. now rewrite Hdu. }
-    rewrite E2. cbn [bind]. rewrite error_info_entries_rt; [reflexivity|exact Hnd|exact Hmd|].
-    intros kv Hin.
-    enough (nlen (ser (enc_strs ENTRY_TAGS [fst kv; snd kv])) <=
-            nlen (ser (enc_str tag_ErrorInfo_reason r ++ enc_str tag_ErrorInfo_domain d ++ enc_entries md))) by lia.
-    apply (ser_payload_small tag_ErrorInfo_metadata). apply in_or_app. right. apply in_or_app. right.
-    unfold enc_entries. apply in_map_iff. exists kv. split; [reflexivity|exact Hin].
-Qed.
-
-(* ---------- the ten payloads ---------- *)
 Definition detail_ok (d : error_detail) : Prop :=
   match d with
   | DRetryInfo x => retry_info_ok x
-  | DDebugInfo x => debug_info_ok x
-  | DQuotaFailure x => Forall (fun v => strs_all_ok (qv_strs v)) (qf_violations x)
+  | DDebugInfo x => Forall str_ok (di_stack_entries x) /\ str_ok (di_detail x)
+  | DQuotaFailure x => Forall (fun v => str_ok (qv_subject v) /\ str_ok (qv_description v)) (qf_violations x)
   | DErrorInfo x => error_info_ok x
-  | DPreconditionFailure x => Forall (fun v => strs_all_ok (pv_strs v)) (pf_violations x)
-  | DBadRequest x => Forall (fun v => strs_all_ok (fv_strs v)) (br_field_violations x)
-  | DRequestInfo x => strs_all_ok [rq_request_id x; rq_serving_data x]
-  | DResourceInfo x => strs_all_ok [rs_resource_type x; rs_resource_name x; rs_owner x; rs_description x]
-  | DHelp x => Forall (fun v => strs_all_ok (hl_strs v)) (h_links x)
-  | DLocalizedMessage x => strs_all_ok [lm_locale x; lm_message x]
+  | DPreconditionFailure x =>
+      Forall (fun v => str_ok (pv_type v) /\ str_ok (pv_subject v) /\ str_ok (pv_description v)) (pf_violations x)
+  | DBadRequest x => Forall (fun v => str_ok (fv_field v) /\ str_ok (fv_description v)) (br_field_violations x)
+  | DRequestInfo x => str_ok (rq_request_id x) /\ str_ok (rq_serving_data x)
+  | DResourceInfo x =>
+      str_ok (rs_resource_type x) /\ str_ok (rs_resource_name x) /\ str_ok (rs_owner x) /\ str_ok (rs_description x)
+  | DHelp x => Forall (fun v => str_ok (hl_description v) /\ str_ok (hl_url v)) (h_links x)
+  | DLocalizedMessage x => str_ok (lm_locale x) /\ str_ok (lm_message x)
   end.
 
-Lemma shape_ok_weaken lenient fs : Forall (shape_ok []) fs ->
-  Forall (fun f => match snd f with WLen _ => True | _ => existsb (N.eqb (fst f)) lenient = false end) fs ->
-  Forall (shape_ok lenient) fs.
+(* rows: the Violation / Link messages *)
+Lemma rows_ok {V} (f : flat) (g : V -> list sval) (P : V -> Prop) (vs : list V) :
+  (forall v, P v -> fvals_ok f (g v) /\ Forall sval_bytes_ok (g v)) -> Forall P vs ->
+  Forall (fvals_ok f) (map g vs) /\ Forall (Forall sval_bytes_ok) (map g vs).
 Proof.
-  intros H1 H2. rewrite Forall_forall in *. intros f Hf. specialize (H1 f Hf). specialize (H2 f Hf).
-  destruct H1 as [Ht Hs]. split; [exact Ht|]. destruct (snd f); intuition.
+  intros H Hvs. split; apply Forall_forall; intros x Hx; apply in_map_iff in Hx as (v & <- & Hv);
+    rewrite Forall_forall in Hvs; now apply H, Hvs.
+Qed.
+Ltac row_ok :=
+  split; [apply Forall2_arrange|apply Forall_arrange]; intros e He; each_field He; field_cbn; cbn [sval_ok sval_bytes_ok];
+  unfold str_ok in *; intuition.
+
+Lemma qv_row v : str_ok (qv_subject v) /\ str_ok (qv_description v) ->
+  fvals_ok F_QuotaViolation (g_of_qv v) /\ Forall sval_bytes_ok (g_of_qv v).
+Proof. intros H. unfold g_of_qv, row. row_ok. Qed.
+Lemma pv_row v : str_ok (pv_type v) /\ str_ok (pv_subject v) /\ str_ok (pv_description v) ->
+  fvals_ok F_PreconditionViolation (g_of_pv v) /\ Forall sval_bytes_ok (g_of_pv v).
+Proof. intros H. unfold g_of_pv, row. row_ok. Qed.
+Lemma fv_row v : str_ok (fv_field v) /\ str_ok (fv_description v) ->
+  fvals_ok F_FieldViolation (g_of_fv v) /\ Forall sval_bytes_ok (g_of_fv v).
+Proof. intros H. unfold g_of_fv, row. row_ok. Qed.
+Lemma hl_row v : str_ok (hl_description v) /\ str_ok (hl_url v) ->
+  fvals_ok F_HelpLink (g_of_hl v) /\ Forall sval_bytes_ok (g_of_hl v).
+Proof. intros H. unfold g_of_hl, row. row_ok. Qed.
+
+Lemma map_inv {A B} (f : A -> B) (g : B -> A) l : (forall x, g (f x) = x) -> map g (map f l) = l.
+Proof. intros H. rewrite map_map. rewrite <- (map_id l) at 2. now apply map_ext. Qed.
+
+(* what `pb::X::from(x)` builds is a value of the table of X, made of legal bytes, and `.into()`
+   gives x back *)
+Ltac top_ok :=
+  first [apply Forall2_arrange|apply Forall_arrange]; intros e He; each_field He; field_cbn; cbn [val_ok val_bytes_ok sval_ok sval_bytes_ok].
+
+Lemma detail_g d : detail_ok d ->
+  exists vs, g_of_detail d = Ok vs /\ vals_ok (S_of (kind_of d)) vs /\ Forall val_bytes_ok vs /\
+             detail_of_g (kind_of d) vs = Ok d.
+Proof.
+  destruct d as [x|x|x|x|x|x|x|x|x|x]; cbn [detail_ok kind_of S_of g_of_detail]; intros H.
+  - (* RetryInfo *)
+    destruct x as [[d|]]; unfold retry_info_ok in H; cbn [ri_retry_delay] in *.
+    + rewrite pb_retry_delay_ok by exact H. cbn [bind]. eexists. split; [reflexivity|]. destruct H as [Hs Hn].
+      split; [|split].
+      * apply Forall2_arrange. intros e He. each_field He. field_cbn. cbn [val_ok].
+        apply Forall2_arrange. intros e He. each_field He; field_cbn; cbn [sval_ok pd_seconds pd_nanos]; unfold U63 in Hs; lia.
+      * apply Forall_arrange. intros e He. each_field He. field_cbn. cbn [val_bytes_ok].
+        apply Forall_arrange. intros e He. each_field He; field_cbn; exact I.
+      * unfold detail_of_g.
+        change (opt_of (by_name S_RetryInfo _ _ _)) with (Some (g_of_dur (mkPbDur (Z.of_N (d_secs d)) (Z.of_N (d_nanos d))))).
+        cbv iota beta. rewrite dur_of_g_of_dur, std_of_pb_of_std by (split; assumption). reflexivity.
+    + eexists. split; [reflexivity|]. split; [|split]; [top_ok; exact I|top_ok; exact I|reflexivity].
+  - (* DebugInfo *)
+    destruct x as [stack detail]. cbn [di_stack_entries di_detail] in *. destruct H as [Hst [Hu Hb]].
+    eexists. split; [reflexivity|]. split; [|split].
+    + apply Forall2_arrange. intros e He. each_field He; field_cbn; cbn [val_ok sval_ok]; [|exact Hu].
+      eapply Forall_impl; [|exact Hst]. now intros s [? _].
+    + apply Forall_arrange. intros e He. each_field He; field_cbn; cbn [val_bytes_ok sval_bytes_ok]; [|exact Hb].
+      eapply Forall_impl; [|exact Hst]. now intros s [_ ?].
+    + reflexivity.
+  - (* QuotaFailure *)
+    destruct x as [vs]. cbn [qf_violations] in *. destruct (rows_ok F_QuotaViolation g_of_qv _ vs qv_row H) as [R1 R2].
+    eexists. split; [reflexivity|]. split; [|split]; [top_ok; assumption|top_ok; assumption|].
+    unfold detail_of_g.
+    change (rep_of (by_name S_QuotaFailure _ _ _)) with (map g_of_qv vs).
+    rewrite map_inv; [reflexivity|now intros []].
+  - (* ErrorInfo *)
+    destruct x as [r dm md]. unfold error_info_ok in H. cbn [ei_reason ei_domain ei_metadata] in *.
+    destruct H as ([Hru Hrb] & [Hdu Hdb] & Hnd & Hmd).
+    eexists. split; [reflexivity|]. split; [|split].
+    + apply Forall2_arrange. intros e He. each_field He; field_cbn; cbn [val_ok sval_ok]; try assumption.
+      split; [exact Hnd|]. eapply Forall_impl; [|exact Hmd]. intros kv [[? _] [? _]]. now split.
+    + apply Forall_arrange. intros e He. each_field He; field_cbn; cbn [val_bytes_ok sval_bytes_ok]; try assumption.
+      eapply Forall_impl; [|exact Hmd]. intros kv [[_ ?] [_ ?]]. now split.
+    + reflexivity.
+  - (* PreconditionFailure *)
+    destruct x as [vs]. cbn [pf_violations] in *. destruct (rows_ok F_PreconditionViolation g_of_pv _ vs pv_row H) as [R1 R2].
+    eexists. split; [reflexivity|]. split; [|split]; [top_ok; assumption|top_ok; assumption|].
+    unfold detail_of_g.
+    change (rep_of (by_name S_PreconditionFailure _ _ _)) with (map g_of_pv vs).
+    rewrite map_inv; [reflexivity|now intros []].
+  - (* BadRequest *)
+    destruct x as [vs]. cbn [br_field_violations] in *. destruct (rows_ok F_FieldViolation g_of_fv _ vs fv_row H) as [R1 R2].
+    eexists. split; [reflexivity|]. split; [|split]; [top_ok; assumption|top_ok; assumption|].
+    unfold detail_of_g.
+    change (rep_of (by_name S_BadRequest _ _ _)) with (map g_of_fv vs).
+    rewrite map_inv; [reflexivity|now intros []].
+  - (* RequestInfo *)
+    destruct x as [a b]. cbn [rq_request_id rq_serving_data] in *. destruct H as [[? ?] [? ?]].
+    eexists. split; [reflexivity|]. split; [|split]; [top_ok; assumption|top_ok; assumption|reflexivity].
+  - (* ResourceInfo *)
+    destruct x as [a b c e0]. cbn [rs_resource_type rs_resource_name rs_owner rs_description] in *.
+    destruct H as ([? ?] & [? ?] & [? ?] & [? ?]).
+    eexists. split; [reflexivity|]. split; [|split]; [top_ok; assumption|top_ok; assumption|reflexivity].
+  - (* Help *)
+    destruct x as [vs]. cbn [h_links] in *. destruct (rows_ok F_HelpLink g_of_hl _ vs hl_row H) as [R1 R2].
+    eexists. split; [reflexivity|]. split; [|split]; [top_ok; assumption|top_ok; assumption|].
+    unfold detail_of_g.
+    change (rep_of (by_name S_Help _ _ _)) with (map g_of_hl vs).
+    rewrite map_inv; [reflexivity|now intros []].
+  - (* LocalizedMessage *)
+    destruct x as [a b]. cbn [lm_locale lm_message] in *. destruct H as [[? ?] [? ?]].
+    eexists. split; [reflexivity|]. split; [|split]; [top_ok; assumption|top_ok; assumption|reflexivity].
 Qed.
 
 Theorem detail_rt_c d : detail_ok d ->
   exists b, enc_detail_c d = Ok b /\ bytes_ok b = true /\ (nlen b < U64 -> dec_detail_c (kind_of d) b = Ok d).
 Proof.
-  destruct d as [x|x|x|x|x|x|x|x|x|x]; cbn [detail_ok kind_of]; intros H;
-    unfold enc_detail_c, dec_detail_c, dec_detail_fields; cbn [enc_detail_fields lenient_of].
-  - (* RetryInfo *)
-    destruct (retry_info_rt x H) as (fs & E & Sh & B & R). rewrite E. cbn [bind]. eexists. split; [reflexivity|].
-    split; [exact B|]. intros Hsz. rewrite parse_ser by assumption. cbn [bind]. now rewrite R.
-  - (* DebugInfo *)
-    cbn [bind]. eexists. split; [reflexivity|]. split; [apply ser_bytes, enc_debug_info_bytes, H|].
-    intros Hsz. rewrite parse_ser by (try apply enc_debug_info_shape; assumption). cbn [bind].
-    now rewrite debug_info_rt.
-  - (* QuotaFailure *)
-    cbn [bind]. destruct x as [vs]. cbn [qf_violations] in H.
-    destruct (rep_payload_rt tag_QuotaFailure_violations QV_TAGS qv_strs qv_of vs) as (Sh & B & R);
-      [closed_range|apply QV_TAGS_ok|now intros []| |].
-    { eapply Forall_impl; [|exact H]. intros v Hv. split; [reflexivity|exact Hv]. }
-    eexists. split; [reflexivity|]. split; [exact B|]. intros Hsz. unfold enc_quota_failure, dec_quota_failure in *.
-    cbn [qf_violations] in *. specialize (R Hsz).
-    destruct (parse RECURSION_LIMIT [] _) as [fs'| | |]; try discriminate. cbn [bind] in *.
-    destruct (dec_rep_strs _ _ fs') as [l| | |]; try discriminate. cbn [bind] in *. now injection R as ->.
-  - (* ErrorInfo *)
-    cbn [bind]. destruct (error_info_rt x H) as (Sh & B & R). eexists. split; [reflexivity|]. split; [exact B|].
-    intros Hsz. rewrite parse_ser by assumption. cbn [bind]. now rewrite R.
-  - (* PreconditionFailure *)
-    cbn [bind]. destruct x as [vs]. cbn [pf_violations] in H.
-    destruct (rep_payload_rt tag_PreconditionFailure_violations PV_TAGS pv_strs pv_of vs) as (Sh & B & R);
-      [closed_range|apply PV_TAGS_ok|now intros []| |].
-    { eapply Forall_impl; [|exact H]. intros v Hv. split; [reflexivity|exact Hv]. }
-    eexists. split; [reflexivity|]. split; [exact B|]. intros Hsz. unfold enc_precondition_failure, dec_precondition_failure in *.
-    cbn [pf_violations] in *. specialize (R Hsz).
-    destruct (parse RECURSION_LIMIT [] _) as [fs'| | |]; try discriminate. cbn [bind] in *.
-    destruct (dec_rep_strs _ _ fs') as [l| | |]; try discriminate. cbn [bind] in *. now injection R as ->.
-  - (* BadRequest *)
-    cbn [bind]. destruct x as [vs]. cbn [br_field_violations] in H.
-    destruct (rep_payload_rt tag_BadRequest_field_violations FV_TAGS fv_strs fv_of vs) as (Sh & B & R);
-      [closed_range|apply FV_TAGS_ok|now intros []| |].
-    { eapply Forall_impl; [|exact H]. intros v Hv. split; [reflexivity|exact Hv]. }
-    eexists. split; [reflexivity|]. split; [exact B|]. intros Hsz. unfold enc_bad_request, dec_bad_request in *.
-    cbn [br_field_violations] in *. specialize (R Hsz).
-    destruct (parse RECURSION_LIMIT [] _) as [fs'| | |]; try discriminate. cbn [bind] in *.
-    destruct (dec_rep_strs _ _ fs') as [l| | |]; try discriminate. cbn [bind] in *. now injection R as ->.
-  - (* RequestInfo *)
-    cbn [bind]. destruct x as [a b]. cbn [rq_request_id rq_serving_data] in H.
-    destruct (strs_payload_rt RQ_TAGS [a; b] RQ_TAGS_ok eq_refl H) as (Sh & B & R).
-    eexists. split; [reflexivity|]. split; [exact B|]. intros Hsz. unfold enc_request_info, dec_request_info in *.
-    cbn [rq_request_id rq_serving_data] in *. specialize (R Hsz).
-    destruct (parse RECURSION_LIMIT [] _) as [fs'| | |]; try discriminate. cbn [bind] in *. now rewrite R.
-  - (* ResourceInfo *)
-    cbn [bind]. destruct x as [a b c e]. cbn [rs_resource_type rs_resource_name rs_owner rs_description] in H.
-    destruct (strs_payload_rt RS_TAGS [a; b; c; e] RS_TAGS_ok eq_refl H) as (Sh & B & R).
-    eexists. split; [reflexivity|]. split; [exact B|]. intros Hsz. unfold enc_resource_info, dec_resource_info in *.
-    cbn [rs_resource_type rs_resource_name rs_owner rs_description] in *. specialize (R Hsz).
-    destruct (parse RECURSION_LIMIT [] _) as [fs'| | |]; try discriminate. cbn [bind] in *. now rewrite R.
-  - (* Help *)
-    cbn [bind]. destruct x as [vs]. cbn [h_links] in H.
-    destruct (rep_payload_rt tag_Help_links HL_TAGS hl_strs hl_of vs) as (Sh & B & R);
-      [closed_range|apply HL_TAGS_ok|now intros []| |].
-    { eapply Forall_impl; [|exact H]. intros v Hv. split; [reflexivity|exact Hv]. }
-    eexists. split; [reflexivity|]. split; [exact B|]. intros Hsz. unfold enc_help, dec_help in *.
-    cbn [h_links] in *. specialize (R Hsz).
-    destruct (parse RECURSION_LIMIT [] _) as [fs'| | |]; try discriminate. cbn [bind] in *.
-    destruct (dec_rep_strs _ _ fs') as [l| | |]; try discriminate. cbn [bind] in *. now injection R as ->.
-  - (* LocalizedMessage *)
-    cbn [bind]. destruct x as [a b]. cbn [lm_locale lm_message] in H.
-    destruct (strs_payload_rt LM_TAGS [a; b] LM_TAGS_ok eq_refl H) as (Sh & B & R).
-    eexists. split; [reflexivity|]. split; [exact B|]. intros Hsz. unfold enc_localized_message, dec_localized_message in *.
-    cbn [lm_locale lm_message] in *. specialize (R Hsz).
-    destruct (parse RECURSION_LIMIT [] _) as [fs'| | |]; try discriminate. cbn [bind] in *. now rewrite R.
+  intros H. destruct (detail_g d H) as (vs & Eg & Hv & Hb & Eback). unfold enc_detail_c, dec_detail_c. rewrite Eg. cbn [bind].
+  eexists. split; [reflexivity|]. split; [now apply enc_g_bytes|]. intros Hsz.
+  rewrite dec_enc_g; [exact Eback|apply S_of_ok|exact Hv|exact Hsz].
 Qed.
 
 (* every payload decoder is total: Ok or Err on any bytes *)
 Theorem dec_detail_good_c k b : good (dec_detail_c k b).
 Proof.
-  unfold dec_detail_c. apply good_bind; [apply parse_good|]. intros fs _.
-  destruct k; cbn [dec_detail_fields]; (apply good_bind; [|intros; exact I]).
-  - apply dec_retry_info_good.
-  - apply fold_res_good. intros. apply merge_debug_info_good.
-  - apply good_bind; [apply dec_rep_strs_good|intros; exact I].
-  - apply fold_res_good. intros. apply merge_error_info_good.
-  - apply good_bind; [apply dec_rep_strs_good|intros; exact I].
-  - apply good_bind; [apply dec_rep_strs_good|intros; exact I].
-  - apply good_bind; [apply dec_strs_good|intros; exact I].
-  - apply good_bind; [apply dec_strs_good|intros; exact I].
-  - apply good_bind; [apply dec_rep_strs_good|intros; exact I].
-  - apply good_bind; [apply dec_strs_good|intros; exact I].
+  unfold dec_detail_c. pose proof (dec_g_good (S_of k) b) as G.
+  destruct (dec_g (S_of k) b) as [vs| | |] eqn:E; cbn in G; try contradiction; cbn [bind]; [|exact I].
+  destruct k; try exact I. (* only RetryInfo's `.into()` has panic sites *)
+  cbn [detail_of_g]. apply dec_g_typed in E. cbn [S_of] in E. unfold vals_typed in E. unfold_tables_in E.
+  repeat match goal with H : Forall2 _ _ _ |- _ => inversion H; subst; clear H end.
+  match goal with H : val_typed _ ?v |- _ => destruct v as [ | |o| | ]; cbn in H; try contradiction; destruct o as [x|] end;
+    cbn [by_name lookup combine map fname fst snd String.eqb Ascii.eqb Bool.eqb opt_of]; [|exact I].
+  apply good_bind; [|intros; exact I]. apply std_of_pb_good, dur_of_g_in_range. assumption.
 Qed.
 
 (* ---------- google.rpc.Status and Any ---------- *)
-Lemma merge_any_good a f : good (merge_any a f).
-Proof.
-  destruct f as [t v]. unfold merge_any.
-  destruct (t =? tag_Any_type_url); [apply good_bind; [apply as_string_good|intros; exact I]|].
-  destruct (t =? tag_Any_value); [apply good_bind; [apply as_bytes_good|intros; exact I]|exact I].
-Qed.
-Lemma merge_status_good ps f : good (merge_status ps f).
-Proof.
-  destruct f as [t v]. unfold merge_status.
-  destruct (t =? tag_Status_code); [apply good_bind; [apply as_varint_good|intros; exact I]|].
-  destruct (t =? tag_Status_message); [apply good_bind; [apply as_string_good|intros; exact I]|].
-  destruct (t =? tag_Status_details); [|exact I].
-  apply good_bind; [apply as_message_good|]. intros fs _.
-  apply good_bind; [apply fold_res_good; intros; apply merge_any_good|intros; exact I].
-Qed.
 Theorem dec_status_good_c b : good (dec_status_c b).
+Proof. unfold dec_status_c. apply good_bind; [apply dec_g_good|intros; exact I]. Qed.
+
+Lemma any_row a : any_ok a -> fvals_ok F_Any (g_of_any a) /\ Forall sval_bytes_ok (g_of_any a).
 Proof.
-  unfold dec_status_c. apply good_bind; [apply parse_good|]. intros fs _.
-  apply fold_res_good. intros. apply merge_status_good.
+  intros (Hu & B1 & B2). unfold g_of_any.
+  split; [apply Forall2_arrange|apply Forall_arrange]; intros e He; each_field He; field_cbn; cbn [sval_ok sval_bytes_ok]; auto.
 Qed.
+Lemma any_of_g_of_any a : any_of_g (g_of_any a) = a.
+Proof. now destruct a. Qed.
 
-Lemma enc_any_shape a : Forall (shape_ok []) (enc_any a).
-Proof. unfold enc_any. apply Forall_app. split; apply enc_str_shape; closed_range. Qed.
-Lemma enc_any_bytes a : any_ok a -> Forall payload_bytes_ok (enc_any a).
-Proof. intros (_ & B1 & B2). unfold enc_any. apply Forall_app. split; now apply enc_str_bytes. Qed.
-
-Lemma dec_enc_any a : any_ok a -> fold_res merge_any (enc_any a) ([], []) = Ok a.
+Lemma status_g ps : pb_ok ps ->
+  vals_ok S_Status (g_of_status ps) /\ Forall val_bytes_ok (g_of_status ps) /\ status_of_g (g_of_status ps) = ps.
 Proof.
-  destruct a as [u v]. unfold any_ok. cbn [fst snd]. intros (Hu & _ & _). unfold enc_any. cbn [fst snd].
-  destruct u as [|c u]; destruct v as [|c' v]; cbn [enc_str app fold_res merge_any]; tag_eval;
-    cbn [as_string as_bytes]; rewrite ?Hu; reflexivity.
-Qed.
-
-Definition enc_anys (l : list any) : list field := map (fun a => enc_msg tag_Status_details (enc_any a)) l.
-
-Lemma status_details_rt l : forall c m acc,
-  Forall any_ok l -> (forall a, In a l -> nlen (ser (enc_any a)) < U64) ->
-  fold_res merge_status (enc_anys l) (mkPbStatus c m acc) = Ok (mkPbStatus c m (acc ++ l)).
-Proof.
-  induction l as [|a l IH]; intros c m acc Hok Hsz; [cbn; now rewrite app_nil_r|].
-  inversion Hok as [|? ? Ha Hl]; subst.
-  cbn [enc_anys map fold_res merge_status enc_msg]. tag_eval. cbn [as_message RECURSION_LIMIT].
-  rewrite parse_ser; [|apply enc_any_shape|apply Hsz; now left]. cbn [bind].
-  rewrite dec_enc_any by exact Ha. cbn [bind ps_code ps_message ps_details].
-  fold (enc_anys l). rewrite IH; [now rewrite <- app_assoc|exact Hl|]. intros a' Hin. apply Hsz. now right.
-Qed.
-
-Lemma enc_status_fields_shape ps : Forall (shape_ok []) (enc_status_fields ps).
-Proof.
-  unfold enc_status_fields. apply Forall_app. split.
-  { unfold enc_int. destruct (ps_code ps =? 0)%Z; constructor; [|constructor].
-    split; [closed_range|]. split; [apply of_int_lt|reflexivity]. }
-  apply Forall_app. split; [apply enc_str_shape; closed_range|].
-  apply Forall_forall. intros f Hin. apply in_map_iff in Hin as (a & <- & _). split; [closed_range|exact I].
+  destruct ps as [c m l]. unfold pb_ok. cbn [ps_code ps_message ps_details]. intros (Hc & Hu & Hb & Hl).
+  destruct (rows_ok F_Any g_of_any _ l any_row Hl) as [R1 R2]. unfold g_of_status. cbn [ps_code ps_message ps_details].
+  split; [|split].
+  - top_ok; try assumption. lia.
+  - top_ok; try assumption. exact I.
+  - unfold status_of_g.
+    change (rep_of (by_name S_Status _ _ _)) with (map g_of_any l).
+    rewrite (map_inv g_of_any any_of_g l any_of_g_of_any). reflexivity.
 Qed.
 
 Theorem status_rt_c ps : pb_ok ps -> nlen (enc_status_c ps) < U64 -> dec_status_c (enc_status_c ps) = Ok ps.
 Proof.
-  destruct ps as [c m l]. unfold pb_ok. cbn [ps_code ps_message ps_details]. intros (Hc & Hu & _ & Hl) Hsz.
-  unfold dec_status_c, enc_status_c in *. rewrite parse_ser by (try apply enc_status_fields_shape; assumption).
-  cbn [bind]. unfold enc_status_fields in *. cbn [ps_code ps_message ps_details] in *. rewrite fold_res_app.
-  assert (E1 : fold_res merge_status (enc_int tag_Status_code c) (mkPbStatus 0 [] []) = Ok (mkPbStatus c [] [])).
-  { unfold enc_int. destruct (c =? 0)%Z eqn:E; [cbn; f_equal; f_equal; lia|].
-    cbn [fold_res merge_status]. tag_eval. cbn [as_varint bind ps_message ps_details].
-    now rewrite to_i32_of_int by lia. }
-  rewrite E1. cbn [bind]. rewrite fold_res_app.
-  assert (E2 : fold_res merge_status (enc_str tag_Status_message m) (mkPbStatus c [] []) = Ok (mkPbStatus c m [])).
-  { destruct m; [reflexivity|]. cbn [enc_str fold_res merge_status]. tag_eval. cbn [as_string]. now rewrite Hu. }
-  rewrite E2. cbn [bind]. fold (enc_anys l). rewrite status_details_rt; [reflexivity|exact Hl|].
-  intros a Hin.
-  enough (nlen (ser (enc_any a)) <= nlen (ser (enc_int tag_Status_code c ++ enc_str tag_Status_message m ++ enc_anys l))) by (fold (enc_anys l) in Hsz; lia).
-  apply (ser_payload_small tag_Status_details). apply in_or_app. right. apply in_or_app. right.
-  unfold enc_anys. apply in_map_iff. exists a. split; [reflexivity|exact Hin].
+  intros H Hsz. destruct (status_g ps H) as (Hv & _ & Eback). unfold dec_status_c, enc_status_c in *.
+  rewrite dec_enc_g; [cbn [bind]; now rewrite Eback|apply S_Status_ok|exact Hv|exact Hsz].
 Qed.
-
 Theorem status_bytes_ok_c ps : pb_ok ps -> bytes_ok (enc_status_c ps) = true.
-Proof.
-  intros (_ & _ & Hb & Hl). unfold enc_status_c, enc_status_fields. apply ser_bytes.
-  apply Forall_app. split; [unfold enc_int; destruct (ps_code ps =? 0)%Z; constructor; [exact I|constructor]|].
-  apply Forall_app. split; [now apply enc_str_bytes|].
-  apply Forall_forall. intros f Hin. apply in_map_iff in Hin as (a & <- & Ha). cbn [snd enc_msg].
-  apply ser_bytes. fold (payload_bytes_ok). apply enc_any_bytes. rewrite Forall_forall in Hl. now apply Hl.
-Qed.
+Proof. intros H. destruct (status_g ps H) as (_ & Hb & _). now apply enc_g_bytes. Qed.
 
+(* the value of an Any is inside the encoded status: it is no longer than it *)
 Theorem status_sub_c ps a : In a (ps_details ps) -> nlen (snd a) <= nlen (enc_status_c ps).
 Proof.
-  intros Hin. unfold enc_status_c.
-  assert (H1 : nlen (ser (enc_any a)) <= nlen (ser (enc_status_fields ps))).
-  { apply (ser_payload_small tag_Status_details). unfold enc_status_fields. apply in_or_app. right. apply in_or_app. right.
-    apply in_map_iff. exists a. split; [reflexivity|exact Hin]. }
-  assert (H2 : nlen (snd a) <= nlen (ser (enc_any a))).
-  { destruct (snd a) as [|x v] eqn:E; [unfold nlen; cbn; lia|]. rewrite <- E.
-    apply (ser_payload_small tag_Any_value). unfold enc_any. apply in_or_app. right. rewrite E. now left. }
+  intros Hin. unfold enc_status_c, enc_g.
+  (* the field `details` of the table of Status, wherever it is *)
+  assert (E : exists e, In e S_Status /\ fname e = "details"%string /\ fknd e = FMsgRep F_Any).
+  { destruct (find (fun e => String.eqb (fname e) "details") S_Status) as [e|] eqn:F; [|vm_compute in F; discriminate].
+    exists e. split; [exact (proj1 (find_some _ _ F))|]. vm_compute in F. injection F as <-. split; reflexivity. }
+  destruct E as (e & He & En & Ek).
+  assert (H1 : nlen (ser (enc_flat F_Any (g_of_any a))) <= nlen (ser (enc_fields S_Status (g_of_status ps)))).
+  { apply (ser_payload_small (ftag e)).
+    apply (enc_fields_incl S_Status (g_of_status ps) e _ (combine_arrange S_Status dflt_f _ e He)).
+    rewrite En, Ek. cbn [lookup String.eqb Ascii.eqb Bool.eqb enc_f].
+    apply in_map_iff. exists (g_of_any a). split; [reflexivity|]. now apply in_map. }
+  assert (H2 : nlen (snd a) <= nlen (ser (enc_flat F_Any (g_of_any a)))).
+  { destruct (snd a) as [|x v] eqn:Ea; [unfold nlen; cbn; lia|]. rewrite <- Ea.
+    assert (E2 : exists e2, In e2 F_Any /\ fname e2 = "value"%string /\ fknd e2 = SBytes).
+    { destruct (find (fun e => String.eqb (fname e) "value") F_Any) as [e2|] eqn:F; [|vm_compute in F; discriminate].
+      exists e2. split; [exact (proj1 (find_some _ _ F))|]. vm_compute in F. injection F as <-. split; reflexivity. }
+    destruct E2 as (e2 & He2 & En2 & Ek2).
+    apply (ser_payload_small (ftag e2)).
+    apply (enc_flat_incl F_Any (g_of_any a) e2 _ (combine_arrange F_Any dflt_s _ e2 He2)).
+    rewrite En2, Ek2. cbn [lookup String.eqb Ascii.eqb Bool.eqb enc_s fst snd]. rewrite Ea. now left. }
   lia.
 Qed.
 
 (* ============================================================================================ *)
-(* the closed theorems: layer A instantiated with layer B, composed with C04's status_roundtrip *)
+(* the header encoding of a status that carries details (tonic/src/status.rs, model of C04) *)
+
+(* C04's [status_roundtrip] asks that the user metadata has no grpc-status-details-bin entry of its
+   own.  Whenever the status has details bytes that premise is not needed: add_header INSERTS the
+   details header, which replaces whatever the metadata had under that name, and from_header_map
+   removes the name from the metadata it returns. *)
+Theorem status_roundtrip_details st :
+  well_formed st -> utf8_valid (st_msg st) = true ->
+  (st_details st <> [] \/ hm_get_all (st_md st) hdr_grpc_status_details = []) ->
+  exists m st',
+    to_header_map st = Some m /\ from_header_map m = Some st' /\
+    st_code st' = st_code st /\ st_msg st' = st_msg st /\ st_details st' = st_details st /\
+    forall k, hm_get_all (st_md st') k =
+              if bytes_eqb k hdr_grpc_status_details then [] else hm_get_all (sanitize (st_md st)) k.
+Proof.
+  intros WF Hutf Hown. pose proof WF as (Hc & Hm & Hd).
+  destruct (code_roundtrip _ Hc) as [cv (Hcv & Hback & _)].
+  destruct (add_header_pointwise st cv WF Hcv) as [m [Hm1 Hpt]].
+  exists m.
+  destruct names_distinct as (SM & SD & MD & MS & DS & DM).
+  assert (GS : hm_get_all m hdr_grpc_status = [cv]).
+  { rewrite Hpt. unfold written. now rewrite bytes_eqb_refl. }
+  assert (GM : hm_get_all m hdr_grpc_message =
+               match st_msg st with [] => [] | _ => [pct_encode in_encoding_set (st_msg st)] end).
+  { rewrite Hpt. unfold written. now rewrite MS, bytes_eqb_refl. }
+  assert (GD : hm_get_all m hdr_grpc_status_details =
+               match st_details st with [] => [] | _ => [enc false (st_details st)] end).
+  { rewrite Hpt. unfold written. rewrite DS, DM, bytes_eqb_refl.
+    destruct (st_details st); [|reflexivity]. destruct Hown as [Hne|Hno]; [now contradiction Hne|exact Hno]. }
+  assert (Dmsg : pct_decode (pct_encode in_encoding_set (st_msg st)) = st_msg st).
+  { apply pct_decode_encode; [exact pct_in_set | exact Hm]. }
+  assert (Ddet : dec (enc false (st_details st)) = Some (st_details st)).
+  { now apply dec_enc. }
+  assert (MD' : forall k,
+     hm_get_all (hm_remove (hm_remove (hm_remove m hdr_grpc_status) hdr_grpc_message) hdr_grpc_status_details) k
+     = if bytes_eqb k hdr_grpc_status_details then [] else hm_get_all (sanitize (st_md st)) k).
+  { intros k. rewrite get_all_remove3, Hpt. unfold written.
+    destruct (bytes_eqb k hdr_grpc_status) eqn:K1.
+    { apply bytes_eqb_eq in K1; subst k; cbn [orb]. rewrite SD. now rewrite get_all_sanitize, reserved_status. }
+    destruct (bytes_eqb k hdr_grpc_message) eqn:K2.
+    { apply bytes_eqb_eq in K2; subst k; cbn [orb]. rewrite MD. now rewrite get_all_sanitize, reserved_message. }
+    destruct (bytes_eqb k hdr_grpc_status_details) eqn:K3; reflexivity. }
+  unfold from_header_map, hm_get. rewrite GS, GM, GD. cbn [hd_error].
+  destruct (st_msg st) as [|a l] eqn:E1; destruct (st_details st) as [|a' l'] eqn:E2; cbn [hd_error].
+  - eexists. repeat split; try reflexivity; try exact Hm1; try exact Hback. exact MD'.
+  - rewrite Ddet. eexists. repeat split; try reflexivity; try exact Hm1; try exact Hback. exact MD'.
+  - cbn zeta. rewrite Dmsg, Hutf. eexists. repeat split; try reflexivity; try exact Hm1; try exact Hback. exact MD'.
+  - cbn zeta. rewrite Dmsg, Hutf, Ddet. eexists. repeat split; try reflexivity; try exact Hm1; try exact Hback. exact MD'.
+Qed.
+
+(* ... and when the status has NO details bytes, a grpc-status-details-bin entry of the caller's own
+   metadata is what travels: its first value, base64-decoded, is the details of the status read
+   back (an undecodable one degrades the status to UNKNOWN without details) *)
+Theorem status_own_details_entry st v rest :
+  well_formed st -> utf8_valid (st_msg st) = true -> st_details st = [] ->
+  hm_get_all (st_md st) hdr_grpc_status_details = v :: rest ->
+  exists m st',
+    to_header_map st = Some m /\ from_header_map m = Some st' /\
+    match dec v with
+    | Some d => st_code st' = st_code st /\ st_msg st' = st_msg st /\ st_details st' = d
+    | None => st_code st' = Code_Unknown /\ st_details st' = []
+    end.
+Proof.
+  intros WF Hutf Hnod Hown. pose proof WF as (Hc & Hm & Hd).
+  destruct (code_roundtrip _ Hc) as [cv (Hcv & Hback & _)].
+  destruct (add_header_pointwise st cv WF Hcv) as [m [Hm1 Hpt]].
+  exists m.
+  destruct names_distinct as (SM & SD & MD & MS & DS & DM).
+  assert (GS : hm_get_all m hdr_grpc_status = [cv]).
+  { rewrite Hpt. unfold written. now rewrite bytes_eqb_refl. }
+  assert (GM : hm_get_all m hdr_grpc_message =
+               match st_msg st with [] => [] | _ => [pct_encode in_encoding_set (st_msg st)] end).
+  { rewrite Hpt. unfold written. now rewrite MS, bytes_eqb_refl. }
+  assert (GD : hm_get_all m hdr_grpc_status_details = v :: rest).
+  { rewrite Hpt. unfold written. rewrite DS, DM, bytes_eqb_refl, Hnod. exact Hown. }
+  assert (Dmsg : pct_decode (pct_encode in_encoding_set (st_msg st)) = st_msg st).
+  { apply pct_decode_encode; [exact pct_in_set | exact Hm]. }
+  unfold from_header_map, hm_get. rewrite GS, GM, GD. cbn [hd_error].
+  destruct (st_msg st) as [|a l] eqn:E1; cbn [hd_error]; cbn zeta; rewrite ?Dmsg, ?Hutf;
+    destruct (dec v) as [d|]; eexists; (split; [exact Hm1|]); (split; [reflexivity|]); cbn [st_code st_msg st_details];
+    repeat split; try reflexivity; exact Hback.
+Qed.
+
+(* ============================================================================================ *)
+(* the closed theorems: layer A instantiated with layer B, composed with the header encoding *)
 Definition fits_c := fits enc_detail_c enc_status_c.
 Definition recovers_c := recovers dec_detail_c dec_status_c.
 (* every detail that is present in the set is well formed *)
@@ -856,17 +716,60 @@ Proof.
   cbv beta in E. lia.
 Qed.
 
-(* attach a list, travel through the header encoding, decode: everything at once *)
+(* the set form is the list form of the details it pushes (ten pushes = one conversion of [pushed]) *)
+Theorem with_error_details_is_vec code message ed md :
+  with_error_details_c code message ed md = with_error_details_vec_c code message (pushed ed) md.
+Proof. apply with_error_details_is_vec_A. Qed.
+
+(* something is attached: a code other than OK, a message, or at least one detail.  Exactly then the
+   encoded google.rpc.Status is not empty *)
+Definition something_attached (code : N) (message : str) {A} (ds : list A) : Prop :=
+  code <> 0 \/ message <> [] \/ ds <> [].
+
+Lemma ser_nonempty fs : fs <> [] -> ser fs <> [].
+Proof.
+  destruct fs as [|f fs]; [contradiction|]. intros _. rewrite ser_cons.
+  destruct (ser_field_cons f) as (x & l & ->). discriminate.
+Qed.
+Lemma status_token ps (n : String.string) (k : fkind) (v : val) :
+  (exists e, find (fun e => String.eqb (fname e) n) S_Status = Some e /\ fknd e = k) ->
+  lookup n [("code"%string, VS (VInt (ps_code ps))); ("message"%string, vstr (ps_message ps));
+            ("details"%string, VRep (map g_of_any (ps_details ps)))] (dflt_f k) = v ->
+  (forall t, enc_f t k v <> []) -> enc_status_c ps <> [].
+Proof.
+  intros (e & Hf & Hk) Hl Hne. unfold enc_status_c, enc_g. apply ser_nonempty. intros E.
+  destruct (find_some _ _ Hf) as [He Hn]. apply String.eqb_eq in Hn.
+  pose proof (enc_fields_incl S_Status (g_of_status ps) e _ (combine_arrange S_Status dflt_f _ e He)) as Hinc.
+  rewrite E in Hinc. rewrite Hn, Hk, Hl in Hinc. specialize (Hne (ftag e)).
+  destruct (enc_f (ftag e) k v) as [|f l]; [now apply Hne|]. apply (Hinc f). now left.
+Qed.
+Lemma details_nonempty code message conv : something_attached code message conv ->
+  enc_status_c (mkPbStatus (Z.of_N code) message conv) <> [].
+Proof.
+  intros [Hc|[Hm|Hd]].
+  - eapply (status_token _ "code" (FScalar SInt32)); [eexists; split; [vm_compute; reflexivity|reflexivity]|reflexivity|].
+    intros t. cbn [enc_f enc_s ps_code lookup String.eqb Ascii.eqb Bool.eqb]. unfold enc_int. replace (Z.of_N code =? 0)%Z with false by lia. discriminate.
+  - eapply (status_token _ "message" (FScalar SString)); [eexists; split; [vm_compute; reflexivity|reflexivity]|reflexivity|].
+    intros t. cbn [enc_f enc_s ps_message vstr lookup String.eqb Ascii.eqb Bool.eqb]. destruct message; [contradiction|]. discriminate.
+  - eapply (status_token _ "details" (FMsgRep F_Any)); [eexists; split; [vm_compute; reflexivity|reflexivity]|reflexivity|].
+    intros t. cbn [enc_f ps_details lookup String.eqb Ascii.eqb Bool.eqb map]. destruct conv as [|a conv]; [contradiction|]. discriminate.
+Qed.
+Lemma details_empty md : with_error_details_vec_c 0 [] [] md = Ok (mkStatus 0 [] [] md).
+Proof. reflexivity. Qed.
+
+(* attach a list, travel through the header encoding, decode: everything at once.  The caller's own
+   grpc-status-details-bin metadata entries, if any, do not matter as soon as something is attached *)
 Theorem attach_and_travel code message ds md :
   is_code code = true -> utf8_valid message = true -> bytes_ok message = true ->
   Forall detail_ok ds -> fits_c code message ds ->
-  hm_get_all md hdr_grpc_status_details = [] ->
+  hm_get_all md hdr_grpc_status_details = [] \/ something_attached code message ds ->
   exists st m st' conv,
     with_error_details_vec_c code message ds md = Ok st /\
     to_header_map st = Some m /\ from_header_map m = Some st' /\
     st_code st' = code /\ st_msg st' = message /\ st_details st' = st_details st /\
     st_md st = md /\
-    (forall k, hm_get_all (st_md st') k = hm_get_all (sanitize md) k) /\
+    (forall k, hm_get_all (st_md st') k =
+               if bytes_eqb k hdr_grpc_status_details then [] else hm_get_all (sanitize md) k) /\
     recovers_c st' ds /\
     dec_status_c (st_details st') = Ok (mkPbStatus (Z.of_N code) message conv) /\
     map fst conv = map (fun d => type_url (kind_of d)) ds.
@@ -878,9 +781,23 @@ Proof.
     as (st & conv & Est & Ecode & Emsg & Emd & Bdet & Fconv & Hdec).
   assert (WF : well_formed st).
   { unfold well_formed. rewrite Ecode, Emsg. auto. }
-  destruct (status_roundtrip st WF) as (m & st' & Hm & Hback & Hc' & Hm' & Hd' & Hmd').
+  assert (Hown : st_details st <> [] \/ hm_get_all (st_md st) hdr_grpc_status_details = []).
+  { destruct Hmd as [Hno|Hsome]; [right; now rewrite Emd|left].
+    destruct (Hdec st eq_refl) as [_ _].
+    (* the details bytes are the encoding of (code, message, conv) *)
+    assert (Ed : st_details st = enc_status_c (mkPbStatus (Z.of_N code) message conv)).
+    { clear - Est Fconv. unfold with_error_details_vec_c, with_error_details_vec_and_metadata in Est.
+      assert (Em : map_res (into_any enc_detail_c) ds = Ok conv).
+      { clear Est. induction Fconv as [|d a ds conv (U & E & _) _ IH]; [reflexivity|]. cbn [map_res].
+        unfold into_any at 1. rewrite E. cbn [bind]. rewrite IH. destruct a as [u v]. cbn [fst snd] in *. now rewrite U. }
+      rewrite Em in Est. cbn [bind] in Est. unfold gen_details_bytes in Est.
+      destruct (nlen _ <=? USIZE_MAX); [|discriminate]. cbn [bind] in Est. now injection Est as <-. }
+    rewrite Ed. apply details_nonempty.
+    destruct Hsome as [H|[H|H]]; [now left|right; now left|right; right].
+    intros ->. inversion Fconv; subst. now apply H. }
+  destruct (status_roundtrip_details st WF) as (m & st' & Hm & Hback & Hc' & Hm' & Hd' & Hmd').
   { now rewrite Emsg. }
-  { now rewrite Emd. }
+  { exact Hown. }
   exists st, m, st', conv. destruct (Hdec st' Hd') as [Dps Rec].
   split; [exact Est|]. split; [exact Hm|]. split; [exact Hback|].
   split; [congruence|]. split; [congruence|]. split; [exact Hd'|]. split; [exact Emd|].
@@ -892,7 +809,7 @@ Qed.
 Theorem details_vec_roundtrip code message ds md :
   is_code code = true -> utf8_valid message = true -> bytes_ok message = true ->
   Forall detail_ok ds -> fits_c code message ds ->
-  hm_get_all md hdr_grpc_status_details = [] ->
+  hm_get_all md hdr_grpc_status_details = [] \/ something_attached code message ds ->
   exists st m st',
     with_error_details_vec_c code message ds md = Ok st /\
     to_header_map st = Some m /\ from_header_map m = Some st' /\
@@ -912,7 +829,7 @@ Qed.
 Theorem details_set_roundtrip code message ed md :
   is_code code = true -> utf8_valid message = true -> bytes_ok message = true ->
   ed_ok ed -> fits_c code message (pushed ed) ->
-  hm_get_all md hdr_grpc_status_details = [] ->
+  hm_get_all md hdr_grpc_status_details = [] \/ something_attached code message (pushed ed) ->
   exists st m st',
     with_error_details_c code message ed md = Ok st /\
     to_header_map st = Some m /\ from_header_map m = Some st' /\
@@ -924,7 +841,7 @@ Proof.
   intros Hc Hu Hb Hds Hfit Hmd.
   destruct (details_vec_roundtrip code message (pushed ed) md Hc Hu Hb Hds Hfit Hmd)
     as (st & m & st' & E1 & E2 & E3 & E4 & E5 & R1 & R2 & R3 & R4 & R5).
-  exists st, m, st'. rewrite last_wins_pushed in R3, R4.
+  exists st, m, st'. rewrite with_error_details_is_vec. rewrite last_wins_pushed in R3, R4.
   repeat (split; [assumption|]). intros k. rewrite R5. f_equal. apply first_of_kind_pushed.
 Qed.
 
@@ -933,7 +850,7 @@ Qed.
 Theorem embedded_status_matches_outer code message ds md :
   is_code code = true -> utf8_valid message = true -> bytes_ok message = true ->
   Forall detail_ok ds -> fits_c code message ds ->
-  hm_get_all md hdr_grpc_status_details = [] ->
+  hm_get_all md hdr_grpc_status_details = [] \/ something_attached code message ds ->
   exists st m st' ps,
     with_error_details_vec_c code message ds md = Ok st /\
     to_header_map st = Some m /\ from_header_map m = Some st' /\
@@ -950,26 +867,44 @@ Qed.
 
 (* C20, metadata: the user metadata given to with_error_details[_vec]_and_metadata is kept on the
    status, and after the header encoding it arrives, name by name and in order, except for the
-   names gRPC reserves (which Status::add_header never writes from user metadata) *)
+   names gRPC reserves (which Status::add_header never writes from user metadata) and the name of
+   the details header itself *)
 Theorem metadata_kept code message ds md :
   is_code code = true -> utf8_valid message = true -> bytes_ok message = true ->
   Forall detail_ok ds -> fits_c code message ds ->
-  hm_get_all md hdr_grpc_status_details = [] ->
+  hm_get_all md hdr_grpc_status_details = [] \/ something_attached code message ds ->
   exists st m st',
     with_error_details_vec_c code message ds md = Ok st /\ st_md st = md /\
     to_header_map st = Some m /\ from_header_map m = Some st' /\
     forall k, hm_get_all (st_md st') k =
-              if existsb (fun k' => bytes_eqb k' k) reserved_headers then [] else hm_get_all md k.
+              if bytes_eqb k hdr_grpc_status_details || existsb (fun k' => bytes_eqb k' k) reserved_headers
+              then [] else hm_get_all md k.
 Proof.
   intros Hc Hu Hb Hds Hfit Hmd.
   destruct (attach_and_travel code message ds md Hc Hu Hb Hds Hfit Hmd)
     as (st & m & st' & conv & E1 & E2 & E3 & _ & _ & _ & Emd & Hk & _).
-  exists st, m, st'. repeat (split; [assumption|]). intros k. rewrite Hk. apply get_all_sanitize.
+  exists st, m, st'. repeat (split; [assumption|]). intros k. rewrite Hk.
+  destruct (bytes_eqb k hdr_grpc_status_details); [reflexivity|]. cbn [orb]. apply get_all_sanitize.
 Qed.
-(* the set form is the list form of the pushed details: same statement *)
-Lemma with_error_details_is_vec code message ed md :
-  with_error_details_c code message ed md = with_error_details_vec_c code message (pushed ed) md.
-Proof. reflexivity. Qed.
+
+(* Observation (outside the property's quantifier): nothing at all is attached - code OK, no
+   message, no details, hence empty details bytes - and the caller's metadata has a
+   grpc-status-details-bin entry of its own: that entry is what the status read back has as details *)
+Theorem own_details_entry_travels md v rest :
+  hm_get_all md hdr_grpc_status_details = v :: rest ->
+  exists st m st',
+    with_error_details_vec_c 0 [] [] md = Ok st /\ st_details st = [] /\
+    to_header_map st = Some m /\ from_header_map m = Some st' /\
+    match dec v with
+    | Some d => st_code st' = 0 /\ st_msg st' = [] /\ st_details st' = d
+    | None => st_code st' = Code_Unknown /\ st_details st' = []
+    end.
+Proof.
+  intros Hown. exists (mkStatus 0 [] [] md).
+  destruct (status_own_details_entry (mkStatus 0 [] [] md) v rest) as (m & st' & H1 & H2 & H3);
+    [repeat split; reflexivity|reflexivity|reflexivity|exact Hown|].
+  exists m, st'. split; [apply details_empty|]. split; [reflexivity|]. split; [exact H1|]. split; [exact H2|exact H3].
+Qed.
 
 (* C20, decode side: whatever the details bytes are, no getter panics (nor does the model run out of
    fuel); the check_* functions answer Ok or Err, the get_* functions answer the same value or the
@@ -1016,14 +951,24 @@ Qed.
 (* durations of the protobuf range (at most 315,576,000,000 s) are within what round-trips *)
 Lemma protobuf_range_dur_ok d : d_secs d <= 315576000000 -> d_nanos d < 1000000000 -> dur_ok d.
 Proof. unfold dur_ok, U63. lia. Qed.
-(* RetryInfo::new keeps a delay up to MAX_RETRY_DELAY and replaces a larger one by MAX_RETRY_DELAY *)
-Lemma retry_info_new_spec d :
-  retry_info_new (Some d) = mkRetryInfo (Some (if dur_gtb d MAX_RETRY_DELAY then MAX_RETRY_DELAY else d)).
-Proof. reflexivity. Qed.
+(* a std Duration as a number of nanoseconds *)
+Definition dur_total (d : duration) : N := d_secs d * 1000000000 + d_nanos d.
+(* RetryInfo::new keeps a delay up to MAX_RETRY_DELAY and replaces a larger one by MAX_RETRY_DELAY: the
+   delay it stores is the minimum of the two (the derived comparison of Duration is the order of the
+   values when the nanoseconds are below 10^9) *)
+Lemma retry_info_new_spec d : d_nanos d < 1000000000 ->
+  exists d', ri_retry_delay (retry_info_new (Some d)) = Some d' /\ d_nanos d' < 1000000000 /\
+             dur_total d' = N.min (dur_total d) (dur_total MAX_RETRY_DELAY).
+Proof.
+  intros Hn. unfold retry_info_new, dur_gtb, MAX_RETRY_DELAY, max_retry_delay_secs, max_retry_delay_nanos, dur_total.
+  cbn [ri_retry_delay d_secs d_nanos].
+  destruct ((315576000000 <? d_secs d) || ((d_secs d =? 315576000000) && (999999999 <? d_nanos d))) eqn:E;
+    eexists; (split; [reflexivity|]); cbn [d_secs d_nanos]; lia.
+Qed.
 Lemma retry_info_new_keeps d : d_secs d <= 315576000000 -> d_nanos d < 1000000000 ->
   retry_info_new (Some d) = mkRetryInfo (Some d).
 Proof.
-  intros Hs Hn. rewrite retry_info_new_spec. unfold dur_gtb, MAX_RETRY_DELAY, max_retry_delay_secs, max_retry_delay_nanos.
+  intros Hs Hn. unfold retry_info_new, dur_gtb, MAX_RETRY_DELAY, max_retry_delay_secs, max_retry_delay_nanos.
   cbn [d_secs d_nanos]. replace ((315576000000 <? d_secs d) || ((d_secs d =? 315576000000) && (999999999 <? d_nanos d))) with false by lia.
   reflexivity.
 Qed.
@@ -1036,10 +981,114 @@ Proof.
   destruct ((315576000000 <? d_secs d) || ((d_secs d =? 315576000000) && (999999999 <? d_nanos d))) eqn:E;
     unfold dur_ok, U63; cbn [d_secs d_nanos]; lia.
 Qed.
-(* a literal RetryInfo (public field) beyond i64 seconds is written as the fallback maximum *)
+(* a literal RetryInfo (public field) beyond i64 seconds is written as the fallback maximum ... *)
 Lemma pb_retry_delay_fallback d : U63 <= d_secs d ->
   pb_retry_delay d = Ok (mkPbDur (Z.of_N fallback_delay_secs) (Z.of_N fallback_delay_nanos)).
 Proof. intros H. unfold pb_retry_delay, pb_of_std. replace (d_secs d <? U63) with false by lia. reflexivity. Qed.
+(* ... and is read back as that maximum: the one RetryInfo value that does not round-trip *)
+Lemma retry_literal_beyond_i64 d : U63 <= d_secs d ->
+  exists b, enc_detail_c (DRetryInfo (mkRetryInfo (Some d))) = Ok b /\
+            dec_detail_c KRetryInfo b = Ok (DRetryInfo (mkRetryInfo (Some (mkDur fallback_delay_secs fallback_delay_nanos)))).
+Proof.
+  intros H.
+  destruct (detail_rt_c (DRetryInfo (mkRetryInfo (Some (mkDur fallback_delay_secs fallback_delay_nanos))))) as (b & E & _ & R).
+  { split; vm_compute; reflexivity. }
+  exists b. split.
+  - unfold enc_detail_c, g_of_detail in *. cbn [ri_retry_delay] in *. rewrite pb_retry_delay_fallback by exact H.
+    rewrite pb_retry_delay_ok in E by (split; vm_compute; reflexivity). exact E.
+  - apply R. (* the payload is a few bytes *)
+    unfold enc_detail_c, g_of_detail in E. cbn [ri_retry_delay] in E.
+    rewrite pb_retry_delay_ok in E by (split; vm_compute; reflexivity). cbn [bind] in E. injection E as <-. vm_compute. reflexivity.
+Qed.
+
+(* ---------- an ErrorDetails built through its public methods (error_details/mod.rs) ---------- *)
+Definition ok_opt {A} (f : A -> error_detail) (o : option A) : Prop :=
+  match o with Some x => detail_ok (f x) | None => True end.
+Lemma Forall_opt_list {A} (f : A -> error_detail) o l :
+  Forall detail_ok (opt_list f o ++ l) <-> ok_opt f o /\ Forall detail_ok l.
+Proof.
+  destruct o as [x|]; cbn [opt_list app ok_opt]; [|tauto].
+  split; [intros H; inversion H; now subst|intros [? ?]; now constructor].
+Qed.
+Lemma ed_ok_fields ed :
+  ed_ok ed <->
+  ok_opt DRetryInfo (ed_retry_info ed) /\ ok_opt DDebugInfo (ed_debug_info ed) /\
+  ok_opt DQuotaFailure (ed_quota_failure ed) /\ ok_opt DErrorInfo (ed_error_info ed) /\
+  ok_opt DPreconditionFailure (ed_precondition_failure ed) /\ ok_opt DBadRequest (ed_bad_request ed) /\
+  ok_opt DRequestInfo (ed_request_info ed) /\ ok_opt DResourceInfo (ed_resource_info ed) /\
+  ok_opt DHelp (ed_help ed) /\ ok_opt DLocalizedMessage (ed_localized_message ed).
+Proof.
+  unfold ed_ok, pushed. rewrite !Forall_opt_list.
+  rewrite <- (app_nil_r (opt_list DLocalizedMessage _)), Forall_opt_list. intuition.
+Qed.
+
+(* the arguments of one operation are well formed: UTF-8 strings, distinct map keys, a std Duration *)
+Definition bop_ok (op : bop) : Prop :=
+  match op with
+  | BSetRetryInfo d => forall x, d = Some x -> d_nanos x < 1000000000
+  | BSetDebugInfo st dt => detail_ok (DDebugInfo (mkDebugInfo st dt))
+  | BSetQuotaFailure vs => detail_ok (DQuotaFailure (mkQuotaFailure vs))
+  | BAddQuotaFailureViolation a b => str_ok a /\ str_ok b
+  | BSetErrorInfo r d md => detail_ok (DErrorInfo (mkErrorInfo r d md))
+  | BSetPreconditionFailure vs => detail_ok (DPreconditionFailure (mkPreconditionFailure vs))
+  | BAddPreconditionFailureViolation a b c => str_ok a /\ str_ok b /\ str_ok c
+  | BSetBadRequest vs => detail_ok (DBadRequest (mkBadRequest vs))
+  | BAddBadRequestViolation a b => str_ok a /\ str_ok b
+  | BSetRequestInfo a b => str_ok a /\ str_ok b
+  | BSetResourceInfo a b c d => str_ok a /\ str_ok b /\ str_ok c /\ str_ok d
+  | BSetHelp ls => detail_ok (DHelp (mkHelp ls))
+  | BAddHelpLink a b => str_ok a /\ str_ok b
+  | BSetLocalizedMessage a b => str_ok a /\ str_ok b
+  end.
+
+Ltac split_n n := match n with O => idtac | S ?m => split; [try assumption|split_n m] end.
+Lemma apply_bop_ok ed op : ed_ok ed -> bop_ok op -> ed_ok (apply_bop ed op).
+Proof.
+  rewrite !ed_ok_fields. destruct ed as [a b c e f g h i j k].
+  cbn [ed_retry_info ed_debug_info ed_quota_failure ed_error_info ed_precondition_failure ed_bad_request
+       ed_request_info ed_resource_info ed_help ed_localized_message].
+  intros (Ha & Hb & Hc & He & Hf & Hg & Hh & Hi & Hj & Hk) Hop.
+  destruct op; cbn [apply_bop bop_ok ed_retry_info ed_debug_info ed_quota_failure ed_error_info ed_precondition_failure
+                    ed_bad_request ed_request_info ed_resource_info ed_help ed_localized_message] in *;
+    split_n 9%nat; try assumption; cbn [ok_opt].
+  - now apply retry_info_new_ok.
+  - destruct c as [q|]; cbn [ok_opt detail_ok qf_violations] in *; [apply Forall_app; split; [exact Hc|]|]; (constructor; [exact Hop|constructor]).
+  - destruct f as [q|]; cbn [ok_opt detail_ok pf_violations] in *; [apply Forall_app; split; [exact Hf|]|]; (constructor; [exact Hop|constructor]).
+  - destruct g as [q|]; cbn [ok_opt detail_ok br_field_violations] in *; [apply Forall_app; split; [exact Hg|]|]; (constructor; [exact Hop|constructor]).
+  - destruct j as [q|]; cbn [ok_opt detail_ok h_links] in *; [apply Forall_app; split; [exact Hj|]|]; (constructor; [exact Hop|constructor]).
+Qed.
+Lemma ed_build_ok ops : Forall bop_ok ops -> ed_ok (ed_build ops).
+Proof.
+  unfold ed_build. assert (G : forall ed, ed_ok ed -> Forall bop_ok ops -> ed_ok (fold_left apply_bop ops ed)).
+  { induction ops as [|op ops IH]; intros ed He Hops; [exact He|]. inversion Hops; subst. cbn [fold_left].
+    apply IH; [now apply apply_bop_ok|assumption]. }
+  apply G. constructor.
+Qed.
+
+(* C20 for a set that is built step by step: whatever sequence of set_.. / add_.. / with_.. calls
+   made it, the ErrorDetails is recovered unchanged *)
+Theorem built_roundtrip code message ops md :
+  is_code code = true -> utf8_valid message = true -> bytes_ok message = true ->
+  Forall bop_ok ops -> fits_c code message (pushed (ed_build ops)) ->
+  hm_get_all md hdr_grpc_status_details = [] \/ something_attached code message (pushed (ed_build ops)) ->
+  exists st m st',
+    with_error_details_c code message (ed_build ops) md = Ok st /\
+    to_header_map st = Some m /\ from_header_map m = Some st' /\
+    check_error_details_c st' = Ok (ed_build ops) /\ get_error_details_c st' = Ok (ed_build ops).
+Proof.
+  intros Hc Hu Hb Hops Hfit Hmd.
+  destruct (details_set_roundtrip code message (ed_build ops) md Hc Hu Hb (ed_build_ok ops Hops) Hfit Hmd)
+    as (st & m & st' & E1 & E2 & E3 & _ & _ & R1 & R2 & _).
+  exists st, m, st'. auto.
+Qed.
+(* the add_* methods append to what the detail holds, or start it (`match &mut self.f { Some(x) => x.add_violation(..), None => self.f = Some(F::with_violation(..)) }`) *)
+Lemma add_quota_spec ops s d :
+  ed_quota_failure (ed_build (ops ++ [BAddQuotaFailureViolation s d])) =
+  Some (mkQuotaFailure (match ed_quota_failure (ed_build ops) with Some q => qf_violations q | None => [] end
+                        ++ [mkQuotaViolation s d])).
+Proof.
+  unfold ed_build. rewrite fold_left_app. cbn [fold_left]. destruct (fold_left apply_bop ops ed_empty) as [a b [q|] e f g h i j k]; reflexivity.
+Qed.
 
 (* the observable evaluated by the correspondence run is what the six functions say *)
 Lemma obs_decode_spec st :
@@ -1058,38 +1107,39 @@ Lemma obs_decode_spec st :
 Proof. reflexivity. Qed.
 
 (* ============================================================================================ *)
-(* the model is the model of the source as it is now: shapes regenerated by rs2v *)
-From Coq Require Import String.
+(* the model is the model of the source as it is now: shapes regenerated by rs2v.  Field TAGS are
+   not pinned - the codec is generic in them; what is pinned is which fields (name, kind) each prost
+   message has, because the struct <-> message conversions of the model name them *)
+Open Scope string_scope.
+Definition shape (t : list (string * N * pkind)) : list (string * pkind) := map (fun x => (fst (fst x), snd x)) t.
 Lemma source_as_modelled :
   error_detail_variants = ["RetryInfo"; "DebugInfo"; "QuotaFailure"; "ErrorInfo"; "PreconditionFailure"; "BadRequest";
-                           "RequestInfo"; "ResourceInfo"; "Help"; "LocalizedMessage"]%string /\
+                           "RequestInfo"; "ResourceInfo"; "Help"; "LocalizedMessage"] /\
   push_order = ["retry_info"; "debug_info"; "quota_failure"; "error_info"; "precondition_failure"; "bad_request";
-                "request_info"; "resource_info"; "help"; "localized_message"]%string /\
+                "request_info"; "resource_info"; "help"; "localized_message"] /\
   vec_push_variants = error_detail_variants /\
   check_vec_arms = error_detail_variants /\
   map fst check_set_arms = error_detail_variants /\ map snd check_set_arms = push_order /\
   map snd getter_types = error_detail_variants /\ map fst getter_types = push_order /\
-  google_rpc_message_count = 15 /\
-  fields_Status = [("code", tag_Status_code, P_int32); ("message", tag_Status_message, P_string);
-                   ("details", tag_Status_details, P_msg_rep "prost_types::Any")]%string /\
-  fields_Any = [("type_url", tag_Any_type_url, P_string); ("value", tag_Any_value, P_bytes)]%string /\
-  fields_Duration = [("seconds", tag_Duration_seconds, P_int64); ("nanos", tag_Duration_nanos, P_int32)]%string /\
-  fields_RetryInfo = [("retry_delay", tag_RetryInfo_retry_delay, P_msg_opt "prost_types::Duration")]%string /\
-  fields_DebugInfo = [("stack_entries", tag_DebugInfo_stack_entries, P_string_rep); ("detail", tag_DebugInfo_detail, P_string)]%string /\
-  fields_QuotaFailure = [("violations", tag_QuotaFailure_violations, P_msg_rep "quota_failure::Violation")]%string /\
-  map snd fields_quota_failure_Violation = [P_string; P_string] /\ map (fun x => snd (fst x)) fields_quota_failure_Violation = QV_TAGS /\
-  fields_ErrorInfo = [("reason", tag_ErrorInfo_reason, P_string); ("domain", tag_ErrorInfo_domain, P_string);
-                      ("metadata", tag_ErrorInfo_metadata, P_map_string_string)]%string /\
-  fields_PreconditionFailure = [("violations", tag_PreconditionFailure_violations, P_msg_rep "precondition_failure::Violation")]%string /\
-  map snd fields_precondition_failure_Violation = [P_string; P_string; P_string] /\
-  map (fun x => snd (fst x)) fields_precondition_failure_Violation = PV_TAGS /\
-  fields_BadRequest = [("field_violations", tag_BadRequest_field_violations, P_msg_rep "bad_request::FieldViolation")]%string /\
-  map snd fields_bad_request_FieldViolation = [P_string; P_string] /\ map (fun x => snd (fst x)) fields_bad_request_FieldViolation = FV_TAGS /\
-  map snd fields_RequestInfo = [P_string; P_string] /\ map (fun x => snd (fst x)) fields_RequestInfo = RQ_TAGS /\
-  map snd fields_ResourceInfo = [P_string; P_string; P_string; P_string] /\ map (fun x => snd (fst x)) fields_ResourceInfo = RS_TAGS /\
-  fields_Help = [("links", tag_Help_links, P_msg_rep "help::Link")]%string /\
-  map snd fields_help_Link = [P_string; P_string] /\ map (fun x => snd (fst x)) fields_help_Link = HL_TAGS /\
-  map snd fields_LocalizedMessage = [P_string; P_string] /\ map (fun x => snd (fst x)) fields_LocalizedMessage = LM_TAGS /\
-  (max_retry_delay_secs, max_retry_delay_nanos) = (315576000000, 999999999) /\
-  (fallback_delay_secs, fallback_delay_nanos) = (315576000000, 999999999).
+  google_rpc_message_count = 15%N /\
+  shape fields_Status = [("code", P_int32); ("message", P_string); ("details", P_msg_rep "prost_types::Any")] /\
+  shape fields_Any = [("type_url", P_string); ("value", P_bytes)] /\
+  shape fields_Duration = [("seconds", P_int64); ("nanos", P_int32)] /\
+  shape fields_RetryInfo = [("retry_delay", P_msg_opt "prost_types::Duration")] /\
+  shape fields_DebugInfo = [("stack_entries", P_string_rep); ("detail", P_string)] /\
+  shape fields_QuotaFailure = [("violations", P_msg_rep "quota_failure::Violation")] /\
+  shape fields_quota_failure_Violation = [("subject", P_string); ("description", P_string)] /\
+  shape fields_ErrorInfo = [("reason", P_string); ("domain", P_string); ("metadata", P_map_string_string)] /\
+  shape fields_PreconditionFailure = [("violations", P_msg_rep "precondition_failure::Violation")] /\
+  shape fields_precondition_failure_Violation = [("type", P_string); ("subject", P_string); ("description", P_string)] /\
+  shape fields_BadRequest = [("field_violations", P_msg_rep "bad_request::FieldViolation")] /\
+  shape fields_bad_request_FieldViolation = [("field", P_string); ("description", P_string)] /\
+  shape fields_RequestInfo = [("request_id", P_string); ("serving_data", P_string)] /\
+  shape fields_ResourceInfo = [("resource_type", P_string); ("resource_name", P_string); ("owner", P_string);
+                               ("description", P_string)] /\
+  shape fields_Help = [("links", P_msg_rep "help::Link")] /\
+  shape fields_help_Link = [("description", P_string); ("url", P_string)] /\
+  shape fields_LocalizedMessage = [("locale", P_string); ("message", P_string)] /\
+  (max_retry_delay_secs, max_retry_delay_nanos) = (315576000000, 999999999)%N /\
+  (fallback_delay_secs, fallback_delay_nanos) = (315576000000, 999999999)%N.
 Proof. repeat split; reflexivity. Qed.
